@@ -3,7 +3,7 @@
     Tags (* @kernel kind *) are read by the harness. *)
 From Coq Require Import ZArith List Bool.
 From AwkV Require Import Base.
-From AwkKernels Require Import Kernels KLemmas Proofs_C13 Proofs_C13b Proofs_C13c Proofs_C13d Proofs_C13e Proofs_C13f Proofs_C13g Proofs_C13h Proofs_C13h2 Proofs_C13h3 Proofs_C13h4.
+From AwkKernels Require Import Kernels KLemmas Proofs_C13 Proofs_C13b Proofs_C13c Proofs_C13d Proofs_C13e Proofs_C13f Proofs_C13g Proofs_C13h Proofs_C13h2 Proofs_C13h3 Proofs_C13h4 Proofs_C13h5 Proofs_C13h6.
 Import ListNotations.
 Open Scope Z_scope.
 
@@ -287,3 +287,33 @@ Theorem C13_Identities_from_UnionArray_safe :
   Identities_from_UnionArray tID uniquecontents toptr fromptr fromtags fromindex tolength fromlength fromwidth which <> XOob.
 Proof. exact Identities_from_UnionArray_safe. Qed.
 Print Assumptions C13_Identities_from_UnionArray_safe.
+
+(* @awkward_NumpyArray_unique_strings k_safe *)
+Theorem C13_NumpyArray_unique_strings_safe :
+  forall toptr offsets offsetslength tolength,
+  offsetslength <= zlen offsets -> 1 <= zlen tolength ->
+  (forall i, 0 <= i < offsetslength - 1 -> 0 <= at_ offsets i <= at_ offsets (i + 1) /\ at_ offsets (i + 1) <= zlen toptr) ->
+  NumpyArray_unique_strings toptr offsets offsetslength tolength <> KOob.
+Proof. exact NumpyArray_unique_strings_safe. Qed.
+Print Assumptions C13_NumpyArray_unique_strings_safe.
+
+(* @awkward_UnionArray_project k_spec *)
+Theorem C13_UnionArray_project_spec :
+  forall lenout tocarry fromtags fromindex n which,
+  0 <= n -> n <= zlen fromtags -> n <= zlen fromindex -> 1 <= zlen lenout -> n <= zlen tocarry ->
+  UnionArray_project lenout tocarry fromtags fromindex n which
+  = KOk (set_nth lenout 0 (zlen (proj_sel fromtags fromindex which n)),
+         proj_sel fromtags fromindex which n ++ skipn (Z.to_nat (zlen (proj_sel fromtags fromindex which n))) tocarry).
+Proof. exact UnionArray_project_spec. Qed.
+Print Assumptions C13_UnionArray_project_spec.
+
+(* @awkward_NumpyArray_contiguous_copy_from_many k_safe *)
+Theorem C13_NumpyArray_contiguous_copy_from_many_safe :
+  forall toptr fromptrs fromlens len stride pos,
+  0 <= stride -> len * stride <= zlen toptr -> zlen fromlens = zlen fromptrs ->
+  (forall k, 0 <= k < zlen fromptrs -> 1 <= at_ fromlens k <= zlen pos /\
+     forall j, 0 <= j < at_ fromlens k -> 0 <= at_ pos j /\ at_ pos j + stride <= zlen (nth (Z.to_nat k) fromptrs [])) ->
+  len <= psum (at_ fromlens) (Z.to_nat (zlen fromptrs)) ->
+  NumpyArray_contiguous_copy_from_many toptr fromptrs fromlens len stride pos <> KOob.
+Proof. exact NumpyArray_contiguous_copy_from_many_safe. Qed.
+Print Assumptions C13_NumpyArray_contiguous_copy_from_many_safe.
